@@ -406,6 +406,58 @@ Definition clean_hist (h : list op) : bool := forallb clean_op h.
 
 End Model.
 
+(* ------------------------------------------------------------------ *)
+(* "the caller never returns to an earlier object": per scope (database x field, or the global  *)
+(* schema / system config) the sequence of supplied object identities never comes back to an    *)
+(* identity it has left.  Tracker: scope -> (current identity, identities left behind).         *)
+
+Definition trk := list (N * (N * list N)).
+Definition mem (x : N) (l : list N) : bool := existsb (N.eqb x) l.
+Definition nr_supply (t : trk) (k x : N) : option trk :=
+  match find k t with
+  | None => Some (upsert k (x, []) t)
+  | Some (cur, cl) =>
+    if mem x cl then None
+    else if cur =? x then Some t
+    else Some (upsert k (x, cur :: cl) t)
+  end.
+Definition k_gs : N := 0.
+Definition k_sc : N := 1.
+Definition k_us (db : N) : N := 3 * db + 2.
+Definition k_rc (db : N) : N := 3 * db + 3.
+Definition k_dc (db : N) : N := 3 * db + 4.
+Definition obind {A : Type} (o : option A) (f : A -> option A) : option A :=
+  match o with None => None | Some a => f a end.
+Definition nr_five (t : trk) (db us gs rc dc sc : N) : option trk :=
+  obind (obind (obind (obind (nr_supply t (k_us db) us) (fun t => nr_supply t k_gs gs))
+                      (fun t => nr_supply t (k_rc db) rc))
+               (fun t => nr_supply t (k_dc db) dc))
+        (fun t => nr_supply t k_sc sc).
+Definition nr_op (t : trk) (o : op) : option trk :=
+  match o with
+  | OCompile w m db us gs rc dc sc f => nr_five t db us gs rc dc sc
+  | OTx avail db us ps f => nr_supply t (k_us db) us
+  | ORestart w dbs gs sc =>
+    fold_left (fun acc e => obind acc (fun t => nr_five t (fst e) (p_us (snd e)) gs (p_rc (snd e))
+                                                    (p_dc (snd e)) sc))
+              dbs (obind (nr_supply t k_gs gs) (fun t => nr_supply t k_sc sc))
+  end.
+Fixpoint nr_ops (t : trk) (h : list op) : option trk :=
+  match h with
+  | [] => Some t
+  | o :: r => match nr_op t o with None => None | Some t' => nr_ops t' r end
+  end.
+Definition no_return (h : list op) : bool :=
+  match nr_ops [] h with Some _ => true | None => false end.
+
+(* no None among the values of a request (the server never supplies None) *)
+Definition nn_req (o : op) : bool :=
+  match o with
+  | OCompile w m db us gs rc dc sc f => nn us && nn gs && nn rc && nn dc && nn sc
+  | OTx avail db us ps f => true
+  | ORestart w dbs gs sc => true
+  end.
+
 Definition sys0 : sys := mkSys [] 1.
 
 (* the instance the correspondence check runs: identities >= 100 are falsy objects (all of
@@ -413,6 +465,7 @@ Definition sys0 : sys := mkSys [] 1.
 Definition fal0 (x : N) : bool := 100 <=? x.
 Definition cont0 (x : N) : N := if x =? 0 then 0 else if 100 <=? x then 50 else x / 2.
 Definition clean0 (h : list op) : bool := clean_hist h.
+Definition noret0 (h : list op) : bool := forallb nn_req h && no_return h.
 Definition trace0 (h : list op) : list (out * sys) := trace true true fal0 cont0 sys0 h.
 
 (* flat numeric rendering of a trace: compared between vm_compute and the extracted binary *)
